@@ -299,8 +299,8 @@ class Radio:
 
     def kick_tx(self):
         c = self.r[0]
-        if self.txing or not self.ce or (c & 3) != 2 or self.flags & MAX_RT:
-            return
+        if self.txing or self.acking or not self.ce or (c & 3) != 2 or self.flags & MAX_RT:
+            return      # (M12: an auto-ACK in progress is finished first - _ack_done() kicks the transmitter again)
         # M11: a PTX sends the TX FIFO in order whatever command loaded the head entry - a payload armed with W_ACK_PAYLOAD while
         # the chip was a PRX and never used goes out as an ordinary payload (why drivers flush the TX FIFO when they leave RX mode)
         if not self.tx_fifo:
@@ -526,6 +526,8 @@ class Radio:
         if self.ce and (c & 3) == 3 and not self.txing:
             self.rx_since = self.sim.now  # receiver chain stays locked; immediately back in RX
             self.air.rx_changed(self)
+        else:
+            self.kick_tx()                # the driver left RX mode while the ACK was on the air (long ACKs: 250 kbps, ACK payloads)
 
     # ------------------------------------------------------------------ harness helpers (not SPI)
     def inject_rx(self, pipe, data):
